@@ -447,6 +447,39 @@ def stripWsGo : WsState → Bytes → Bytes
 /-- remove white space outside string literals -/
 def stripWs (s : Bytes) : Bytes := stripWsGo .out s
 
+/-! ### walking an output to check its indentation -/
+
+/-- outside a string / inside / after a backslash / counting indentation units after a newline -/
+inductive IndState where | out | str | esc | ind (k : Nat)
+  deriving Repr
+
+def isOpen (b : UInt8) : Bool := b = cLBrack || b = cLBrace
+def isClose (b : UInt8) : Bool := b = cRBrack || b = cRBrace
+
+/-- one byte outside a string: new state and bracket depth -/
+def outStep (depth : Nat) (b : UInt8) : IndState × Nat :=
+  if b = cQuote then (.str, depth)
+  else if isOpen b then (.out, depth + 1)
+  else if isClose b then (.out, depth - 1)
+  else if b = cNl then (.ind 0, depth)
+  else (.out, depth)
+
+/-- walk a colour-free output with `depth` open brackets: after every newline outside a string
+    the run of `unit` bytes must have length `depth × indent` — `(depth - 1) × indent` if the
+    next byte closes a bracket — and the output must not end inside such a run -/
+def indentOk (unit : UInt8) (indent : Nat) : IndState → Nat → Bytes → Bool
+  | .ind _, _, [] => false
+  | _, _, [] => true
+  | .str, d, b :: t =>
+    if b = cQuote then indentOk unit indent .out d t
+    else if b = cBackslash then indentOk unit indent .esc d t
+    else indentOk unit indent .str d t
+  | .esc, d, _ :: t => indentOk unit indent .str d t
+  | .out, d, b :: t => indentOk unit indent (outStep d b).1 (outStep d b).2 t
+  | .ind k, d, b :: t =>
+    if b = unit then indentOk unit indent (.ind (k + 1)) d t
+    else (k == (if isClose b then d - 1 else d) * indent) && indentOk unit indent (outStep d b).1 (outStep d b).2 t
+
 /-! ### a JSON reader (RFC 8259) -/
 
 def hexVal (b : UInt8) : Option Nat :=
@@ -738,6 +771,19 @@ mutual
     | [] => []
     | (k, x) :: xs => (Utf8.sanitize k, sanitizeJV x) :: sanitizeKvs xs
 end
+
+/-! ### the string conversions of func.go -/
+
+/-- `funcToJSON` (also `@json`) -/
+def tojson (v : JV) : JV := .str (encodeValue v)
+/-- `funcToString` (also `@text`): strings are kept, everything else is `tojson` -/
+def tostring : JV → JV
+  | .str s => .str s
+  | v => tojson v
+/-- `funcFromJSON` with the reader standing for `json.Decoder`; `none` = any error -/
+def fromjson : JV → Option JV
+  | .str s => parseJson s
+  | _ => none
 
 /-- numbers are "equal" when they convert to the same float64 and integers are exactly equal
     (an integral double prints without a fraction and reads back as an integer literal) -/
